@@ -18,6 +18,7 @@ import (
 	"github.com/ipfs/boxo/ipld/unixfs/importer/helpers"
 	pb "github.com/ipfs/boxo/ipld/unixfs/pb"
 	"github.com/ipfs/go-unixfsnode/data"
+	mh "github.com/multiformats/go-multihash"
 
 	"github.com/ipfs/go-cid"
 	"github.com/ipfs/go-unixfsnode"
@@ -174,11 +175,15 @@ func TestC06_R_LargeFiles(t *testing.T) {
 
 // C12: every single missing block of a 3 MiB file (default chunker) must surface through AsBytes and through streaming.
 func TestC12_R_LargeFileFaults(t *testing.T) {
+	bareIdx := 0
 	for _, fc := range []*fileCase{bigFile(t, 3*1024*1024+100, "", 174), bigFile(t, 1024*1024+1, "size-131072", 3)} {
 		for _, mode := range []string{"AsBytes", "stream-4096", "copy"} {
 			for _, n := range fc.Tree.All()[1:] {
 				fc.St.Missing = map[cid.Cid]bool{n.Cid: true}
 				fc.St.MissingIO = n.Start%2 == 0
+				if bareIdx++; bareIdx%3 == 0 {
+					fc.St.MissingBare = bareFaults[(bareIdx/3)%len(bareFaults)] // io.EOF, io.ErrUnexpectedEOF, ... passed through unwrapped
+				}
 				rn, err := loadReified(fc.St.LinkSystem(), fc.Root, "unixfs")
 				if err != nil {
 					t.Fatal(err)
@@ -197,10 +202,12 @@ func TestC12_R_LargeFileFaults(t *testing.T) {
 					rs, _ := rn.(datamodel.LargeBytesNode).AsLargeBytes()
 					got, rerr = readAllStream(rs, 4096)
 				}
+				bare := fc.St.MissingBare
 				fc.St.Missing = map[cid.Cid]bool{}
 				fc.St.MissingIO = false
-				if rerr == nil || rerr == io.EOF || !isInjected(rerr) {
-					t.Fatalf("C12 large [%s] %s with the block at span %d.. unavailable: err=%v after %d bytes", fc.Desc, mode, n.Start, rerr, len(got))
+				fc.St.MissingBare = nil
+				if rerr == nil || rerr == io.EOF || (bare == nil && !isInjected(rerr)) {
+					t.Fatalf("C12 large [%s] %s with the block at span %d.. unavailable (bare error %v): err=%v after %d bytes", fc.Desc, mode, n.Start, bare, rerr, len(got))
 				}
 				if mode != "AsBytes" && !bytes.Equal(got, fc.Data[:n.Start]) {
 					t.Fatalf("C12 large [%s] %s: %d bytes delivered before the error, want the %d preceding the missing span", fc.Desc, mode, len(got), n.Start)
@@ -376,6 +383,18 @@ func wideDirDup(st *Store, n int, nameless map[int]bool, dups map[int]int) (cid.
 // C15 / C03: plain directories of more than 1024 and more than 4096 links in listing (unsorted) order, some links
 // nameless: the map contract holds, and every entry is reachable by path.
 func TestC15_R_WideUnsortedDirectories(t *testing.T) {
+	// far beyond what the builders leave unsharded (one variant each: the contract check is quadratic in the link count)
+	for _, n := range []int{8193, 9000, 16385} {
+		st := NewStore()
+		root, _, _ := wideDir(st, n, map[int]bool{n / 2: true})
+		rn, err := loadReified(st.LinkSystem(), root, "unixfs")
+		if err != nil {
+			t.Fatal(err)
+		}
+		if _, err := checkMapContract(rn, []string{"nope", "file-0"}); err != nil {
+			t.Fatalf("C15: plain directory of %d links in listing order (one nameless link in the middle): %v", n, err)
+		}
+	}
 	for _, n := range []int{1025, 3000, 4096, 5000} {
 		for _, nameless := range []map[int]bool{nil, {n / 2: true}, {1: true, n: true}} {
 			st := NewStore()
@@ -816,6 +835,162 @@ func TestC04_R_BulkReads(t *testing.T) {
 			if pos != int64(len(fc.Data)) {
 				t.Fatalf("C04 bulk [%s] buffer %d: EOF at %d of %d", fc.Desc, bufSize, pos, len(fc.Data))
 			}
+		}
+	}
+}
+
+// C08: directories of more than 2^16 entries equal the reference HAMT's root and size.
+func TestC08_R_LargeDirectories(t *testing.T) {
+	for _, c := range []struct{ n, fanout int }{{65536, 256}, {65537, 256}, {70001, 256}, {66000, 1024}} {
+		es := make([]entrySpec, c.n)
+		for i := range es {
+			es[i] = entryForKind(fmt.Sprintf("file-%06d.dat", i), 0, 0)
+		}
+		got, gsz, err := buildSharded(NewStore(), es, c.fanout)
+		if err != nil {
+			t.Fatalf("C08 large: %d entries at fanout %d: builder: %v", c.n, c.fanout, err)
+		}
+		want, wsz, err := refBuildShard(NewStore(), es, c.fanout)
+		if err != nil {
+			t.Fatalf("reference: %v", err)
+		}
+		if got != want || gsz != wsz {
+			t.Fatalf("C08: %d entries at fanout %d: builder %s / %d, reference %s / %d", c.n, c.fanout, got, gsz, want, wsz)
+		}
+	}
+}
+
+// C03 / C15: a plain directory block with more than 2^16 links (hand-assembled; the builders shard long before):
+// entries at positions at and beyond 65536 resolve to their own links.
+func TestC03_R_HugePlainDirectory(t *testing.T) {
+	const n = 70000
+	st := NewStore()
+	sub, names, want := wideDir(st, n, nil)
+	rn, err := loadReified(st.LinkSystem(), sub, "unixfs")
+	if err != nil {
+		t.Fatal(err)
+	}
+	if l := rn.Length(); l != n {
+		t.Fatalf("C15: Length() = %d of a plain directory with %d links", l, n)
+	}
+	for _, i := range []int{0, 1, 255, 256, 4463, 65534, 65535, 65536, 65537, 66000, n - 2, n - 1} {
+		name := names[i]
+		ms, _, err := c03Walk(st, sub, name, "match", false)
+		if err != nil || len(ms) != 1 {
+			t.Fatalf("C03: path %q (entry #%d of a plain directory with %d links) matched %d nodes (err %v)", name, i+1, n, len(ms), err)
+		}
+		if b, err := ms[0].Node.AsBytes(); err != nil || string(b) != name {
+			t.Fatalf("C03: path %q (entry #%d of %d) matched the block %q (err %v): another entry's", name, i+1, n, b, err)
+		}
+		v, err := rn.LookupByString(name)
+		if c, e := linkOf(v); err != nil || e != nil || c != want[name] {
+			t.Fatalf("C15: LookupByString(%q) (entry #%d of %d) = %v, %v; want %s", name, i+1, n, v, err, want[name])
+		}
+		if l := rn.(nativeDir).Lookup(pbString(name)); l == nil || cidOf(l.Link()) != want[name] {
+			t.Fatalf("C15: native Lookup(%q) (entry #%d of %d) = %v; want %s", name, i+1, n, l, want[name])
+		}
+	}
+}
+
+// C10: builds running at the same time in different goroutines return what they return alone - also with name-hash
+// functions other than the default, and also when the goroutines share ONE *LinkSystem (a link system is a bundle of
+// functions; the store behind it is safe for concurrent use).
+func TestC10_R_ConcurrentIndependentBuilds(t *testing.T) {
+	const G, rounds = 8, 60
+	hashers := []uint64{mh.SHA2_256, mh.SHA2_256, mh.SHA3_256, mh.BLAKE2B_MIN + 31}
+	type job struct {
+		es     []entrySpec
+		hasher uint64
+		want   cid.Cid
+		wsz    uint64
+	}
+	jobs := make([]job, G)
+	for g := range jobs {
+		var es []entrySpec
+		for i := 0; i < 150+g*11; i++ {
+			es = append(es, entryFor(fmt.Sprintf("g%d-name-%d", g, i), g))
+		}
+		h := hashers[g%len(hashers)]
+		c, sz, err := buildShardedHasher(NewStore(), es, 16, h)
+		if err != nil {
+			t.Fatal(err)
+		}
+		jobs[g] = job{es, h, c, sz}
+	}
+	errs := make(chan string, G)
+	var wg sync.WaitGroup
+	for g := 0; g < G; g++ {
+		wg.Add(1)
+		go func(g int) {
+			defer wg.Done()
+			defer func() {
+				if p := recover(); p != nil {
+					errs <- fmt.Sprintf("goroutine %d: panic %v", g, p)
+				}
+			}()
+			for r := 0; r < rounds; r++ {
+				c, sz, err := buildShardedHasher(NewStore(), jobs[g].es, 16, jobs[g].hasher)
+				if err != nil || c != jobs[g].want || sz != jobs[g].wsz {
+					errs <- fmt.Sprintf("goroutine %d round %d: sharded build with name hash 0x%x returned %s/%d (err %v), alone %s/%d", g, r, jobs[g].hasher, c, sz, err, jobs[g].want, jobs[g].wsz)
+					return
+				}
+			}
+		}(g)
+	}
+	wg.Wait()
+	close(errs)
+	for e := range errs {
+		t.Fatalf("C10: %d goroutines building their own sharded directories (non-default name hashes) at the same time: %s", G, e)
+	}
+}
+
+func TestC11_R_ConcurrentBuildsThroughOneLinkSystem(t *testing.T) {
+	const G, rounds = 8, 800
+	st := NewStore()
+	ls := st.LinkSystem() // shared by all goroutines
+	type job struct {
+		data []byte
+		want cid.Cid
+		wsz  uint64
+	}
+	jobs := make([]job, G)
+	for g := range jobs {
+		data := lcgBytes(10+g*137, byte(g+1), 0)
+		c, sz, err := buildFile(NewStore(), data, "size-64", 3)
+		if err != nil {
+			t.Fatal(err)
+		}
+		jobs[g] = job{data, c, sz}
+	}
+	old := builder.DefaultLinksPerBlock
+	builder.DefaultLinksPerBlock = 3 // (a package variable: set once before the goroutines start)
+	defer func() { builder.DefaultLinksPerBlock = old }()
+	errs := make(chan string, G)
+	var wg sync.WaitGroup
+	for g := 0; g < G; g++ {
+		wg.Add(1)
+		go func(g int) {
+			defer wg.Done()
+			for r := 0; r < rounds; r++ {
+				var l datamodel.Link
+				var sz uint64
+				var err error
+				l, sz, err = builder.BuildUnixFSFile(bytes.NewReader(jobs[g].data), "size-64", ls)
+				if err != nil || cidOf(l) != jobs[g].want || sz != jobs[g].wsz {
+					errs <- fmt.Sprintf("goroutine %d round %d: file of %d bytes built as %v / size %d (err %v), alone %s / %d", g, r, len(jobs[g].data), l, sz, err, jobs[g].want, jobs[g].wsz)
+					return
+				}
+			}
+		}(g)
+	}
+	wg.Wait()
+	close(errs)
+	for e := range errs {
+		t.Fatalf("C11: %d goroutines building through one shared *LinkSystem: %s", G, e)
+	}
+	for g := range jobs {
+		if _, err := verifySizes(st, jobs[g].want, nil); err != nil {
+			t.Fatalf("C11: sizes written by concurrent builds through one shared link system: %v", err)
 		}
 	}
 }
